@@ -48,7 +48,7 @@ struct Conv {
 }
 
 /// One planted case: returns the observed urgency (or an error string).
-fn plant_and_add(subj: &mut Subject, client: Uuid, age_days: i64, since: u32) -> Result<Urg, String> {
+fn plant_and_add(subj: &mut Subject, client: Uuid, age_days: i64, since: u32, extra_secs: i64) -> Result<Urg, String> {
     // a first real version creates the client through the protocol
     let v1 = match subj.exec(client, &Req::AddVersion { parent: Uuid::nil(), data: b"first".to_vec() }) {
         Resp::AddOk { vid, .. } => vid,
@@ -56,7 +56,8 @@ fn plant_and_add(subj: &mut Subject, client: Uuid, age_days: i64, since: u32) ->
     };
     {
         let mut txn = subj.storage.txn(client).map_err(|e| format!("txn: {e:#}"))?;
-        let ts = chrono::Utc::now() - chrono::Duration::seconds(age_days * 86400 + 3600);
+        // whole days plus a fraction of a day (the age in days is the floor of the elapsed time)
+        let ts = chrono::Utc::now() - chrono::Duration::seconds(age_days * 86400 + extra_secs);
         txn.set_snapshot(Snapshot { version_id: v1, timestamp: ts, versions_since: since }, b"planted snapshot".to_vec())
             .map_err(|e| format!("set_snapshot: {e:#}"))?;
         txn.commit().map_err(|e| format!("commit: {e:#}"))?;
@@ -170,7 +171,9 @@ pub fn shard_run(tier: &str, seed: u64, replay_case: Option<usize>, shard: Shard
             for (pi, (age, since)) in pts.iter().enumerate() {
                 let client = Rng::new(seed).fork((ci * 1000 + pi) as u64).uuid();
                 cov.evaluations += 1;
-                let got = plant_and_add(&mut subj, client, *age, *since);
+                // alternate between 'N days and half an hour' and 'N days, 23 hours and a half'
+                let extra = if (pi + ci) % 2 == 0 { 1800 } else { 23 * 3600 + 1800 };
+                let got = plant_and_add(&mut subj, client, *age, *since, extra);
                 let want_before = spec_urgency(cfg, Some((*age, *since)));
                 let want_after = spec_urgency(cfg, Some((*age, since.saturating_add(1))));
                 let case = json!({"origin": "planted", "case": 1_000_000 + ci, "subject": kind.name(), "snapshot_days": cfg.snapshot_days, "snapshot_versions": cfg.snapshot_versions, "age_days": age, "versions_since": since});
